@@ -1712,10 +1712,10 @@ def i_shared(ctx):
 # ---------------------------------------------------------------------------
 # C08.j  a transport error ends what is still in flight for the observer
 #
-# Set to True once MessageManager._retransmit puts the exchange back *before* it hands the message to the transport
-# (or re-checks after sending): the obligation is then applied to re-arming sites as well.  On the confirmed tree the
-# re-arming site is refuted (see the note the clause emits), so it is described, not decided.
-J_DECIDE_REARM = False
+# True since fix ba9502f (finding F13): MessageManager._retransmit puts the exchange back *before* it hands the
+# message to the transport, so the obligation is applied to re-arming sites as well.  (Before the fix the re-arming
+# site was refuted on the unchanged tree: that was the finding.)
+J_DECIDE_REARM = True
 
 
 def _decide_rearm():
